@@ -676,3 +676,120 @@ Qed.
 
 Lemma then_cmp_eq_r c : then_cmp c Eq = c.
 Proof. now destruct c. Qed.
+
+(* ---------------------------------------------------------------- the recogniser is complete *)
+
+Lemma parse_body_complete rest : forall d cur,
+  wf_rest rest -> forallb is_digit d = true -> forallb is_digit cur = true -> rev cur ++ d <> [] ->
+  parse_body cur (d ++ flat rest) = Some (rev cur ++ d, rest).
+Proof.
+  induction rest as [|[s e] rest IH]; intros d cur W.
+  - revert cur. induction d as [|c d IHd]; intros cur Hd Hc N.
+    + cbn [app flat flat_map parse_body]. rewrite app_nil_r in *.
+      destruct cur; [cbn in N; congruence|reflexivity].
+    + cbn [forallb] in Hd. apply andb_true_iff in Hd as [Hcd Hd]. cbn [app parse_body]. rewrite Hcd.
+      rewrite IHd; [cbn [rev]; now rewrite <- app_assoc|assumption|cbn [forallb]; now rewrite Hcd|].
+      cbn [rev]. rewrite <- app_assoc. cbn [app]. destruct (rev cur); discriminate.
+  - inversion W as [|? ? [S E] W']; subst. cbn [fst snd] in *.
+    revert cur. induction d as [|c d IHd]; intros cur Hd Hc N.
+    + change (flat ((s, e) :: rest)) with (s :: e ++ flat rest). cbn [app parse_body].
+      rewrite (sep_not_digit s S), S. rewrite app_nil_r in *.
+      destruct cur as [|c0 cur]; [cbn in N; congruence|]. cbn [nonempty andb].
+      apply all_digits_forall in E as [E Ne].
+      rewrite (IH e [] W' E eq_refl) by (cbn [rev app]; assumption). reflexivity.
+    + cbn [forallb] in Hd. apply andb_true_iff in Hd as [Hcd Hd]. cbn [app parse_body]. rewrite Hcd.
+      rewrite IHd; [cbn [rev]; now rewrite <- app_assoc|assumption|cbn [forallb]; now rewrite Hcd|].
+      cbn [rev]. rewrite <- app_assoc. cbn [app]. destruct (rev cur); discriminate.
+Qed.
+
+Lemma span_alpha_part l d0 rest :
+  wf_part (l, d0, rest) -> span is_alpha (print_part (l, d0, rest)) = (l, d0 ++ flat rest).
+Proof.
+  intros (L & _ & D & _). cbn [print_part]. fold (flat rest).
+  destruct (all_digits_head d0 D) as [c [r [-> Hc]]]. cbn [app].
+  apply span_stop; [assumption|now apply digit_not_alpha].
+Qed.
+
+Lemma parse_part_complete p : wf_part p -> parse_part (print_part p) = Some p.
+Proof.
+  destruct p as [[l d0] rest]. intro W. unfold parse_part. rewrite (span_alpha_part l d0 rest W).
+  destruct W as (L & M & D & W). rewrite M. apply all_digits_forall in D as [D N].
+  rewrite (parse_body_complete rest d0 [] W D eq_refl) by (cbn [rev app]; assumption). reflexivity.
+Qed.
+
+Lemma parse_conv_complete c : wf_cname c -> parse_conv (print_cname c) = Some c.
+Proof.
+  destruct c as [[p s] t]. intros (Wp & Ws & Wt). unfold parse_conv. cbn [print_cname].
+  pose proof (part_notpm p Wp) as Hp.
+  destruct s as [s|], t as [t|]; cbn [wf_opt] in *.
+  - cbn [app]. rewrite span_stop by (auto; reflexivity). rewrite (parse_part_complete p Wp).
+    rewrite ascii_eqb_refl. rewrite span_stop by (auto using part_notpm; reflexivity).
+    rewrite (parse_part_complete s Ws). rewrite ascii_eqb_refl. now rewrite (parse_part_complete t Wt).
+  - rewrite app_nil_r. cbn [app]. rewrite span_stop by (auto; reflexivity). rewrite (parse_part_complete p Wp).
+    rewrite ascii_eqb_refl. rewrite span_all by (now apply part_notpm). now rewrite (parse_part_complete s Ws).
+  - cbn [app]. rewrite span_stop by (auto; reflexivity). rewrite (parse_part_complete p Wp).
+    change (ascii_eqb c_plus c_minus) with false. cbv iota. now rewrite (parse_part_complete t Wt).
+  - cbn [app]. rewrite !app_nil_r. rewrite span_all by assumption. now rewrite (parse_part_complete p Wp).
+Qed.
+
+Lemma conv_complete c : wf_cname c -> conv (print_cname c) = true /\ key (print_cname c) = cname_key c.
+Proof. intro W. unfold conv, key. now rewrite (parse_conv_complete c W). Qed.
+
+(* ---------------------------------------------------------------- strict mode across letter prefixes *)
+
+Lemma print_part_letters l1 d1 r1 l2 d2 r2 :
+  wf_part (l1, d1, r1) -> wf_part (l2, d2, r2) ->
+  print_part (l1, d1, r1) = print_part (l2, d2, r2) -> l1 = l2.
+Proof.
+  intros W1 W2 E. pose proof (span_alpha_part _ _ _ W1) as S1. pose proof (span_alpha_part _ _ _ W2) as S2.
+  rewrite E, S2 in S1. now inversion S1.
+Qed.
+
+Lemma starts_with_letters l1 d l2 e :
+  forallb is_alpha l1 = true -> forallb is_alpha l2 = true -> all_digits d = true -> all_digits e = true ->
+  starts_with (l1 ++ d) (l2 ++ e) = true -> l1 = l2.
+Proof.
+  intros L1 L2 D E. revert l2 L2. induction l1 as [|c l1 IH]; intros [|c' l2] L2 H; try reflexivity.
+  - exfalso. destruct (all_digits_head d D) as [x [r [-> Hx]]]. cbn [forallb] in L2. apply andb_true_iff in L2 as [Hc _].
+    cbn [app starts_with] in H. destruct (ascii_eqb_spec x c') as [->|]; [|discriminate].
+    rewrite (alpha_not_digit c' Hc) in Hx. discriminate.
+  - exfalso. destruct (all_digits_head e E) as [x [r [-> Hx]]]. cbn [forallb] in L1. apply andb_true_iff in L1 as [Hc _].
+    cbn [app starts_with] in H. destruct (ascii_eqb_spec c x) as [->|]; [|discriminate].
+    rewrite (alpha_not_digit x Hc) in Hx. discriminate.
+  - cbn [forallb] in L1, L2. apply andb_true_iff in L1 as [_ L1]. apply andb_true_iff in L2 as [_ L2].
+    cbn [app starts_with] in H. destruct (ascii_eqb_spec c c') as [->|]; [|discriminate].
+    f_equal. now apply IH.
+Qed.
+
+Lemma scmp_cname_unsortable c1 c2 :
+  wf_cname c1 -> wf_cname c2 -> fst (fst (fst (fst c1))) <> fst (fst (fst (fst c2))) ->
+  scmp true true (print_cname c1) (print_cname c2) = Err Unsortable.
+Proof.
+  destruct c1 as [[[[l1 d1] r1] s1] t1], c2 as [[[[l2 d2] r2] s2] t2]. cbn [fst]. intros W1 W2 N.
+  rewrite scmp_unfold, !cname_split by assumption.
+  destruct W1 as (Wp1 & _), W2 as (Wp2 & _).
+  destruct (str_eqb_spec (print_part (l1, d1, r1)) (print_part (l2, d2, r2))) as [E|_].
+  { apply print_part_letters in E; auto. contradiction. }
+  unfold cmp_primaries. rewrite !part_components by assumption.
+  destruct Wp1 as (L1 & _ & D1 & _), Wp2 as (L2 & _ & D2 & _).
+  cbn [cmp_loop]. rewrite comp_first by assumption.
+  destruct (str_eqb_spec l1 l2) as [|_]; [contradiction|].
+  destruct (str_compare l1 l2) eqn:C.
+  - apply (ok_eq _ ord_ok_str) in C. contradiction.
+  - cbn [andb negb].
+    destruct (starts_with (l1 ++ d1) (l2 ++ d2)) eqn:A; [apply starts_with_letters in A; auto; contradiction|].
+    destruct (starts_with (l2 ++ d2) (l1 ++ d1)) eqn:B; [apply starts_with_letters in B; auto; congruence|].
+    now destruct (is_nil (map snd r1) || is_nil (map snd r2)).
+  - cbn [andb negb].
+    destruct (starts_with (l1 ++ d1) (l2 ++ d2)) eqn:A; [apply starts_with_letters in A; auto; contradiction|].
+    destruct (starts_with (l2 ++ d2) (l1 ++ d1)) eqn:B; [apply starts_with_letters in B; auto; congruence|].
+    now destruct (is_nil (map snd r1) || is_nil (map snd r2)).
+Qed.
+
+Lemma cmp_strict_unsortable a b :
+  conv a = true -> conv b = true -> prefix_of a <> prefix_of b -> version_cmp_strict a b = Err Unsortable.
+Proof.
+  intros Ca Cb Hp. destruct (conv_spec a Ca) as [c1 (W1 & P1 & K1)]. destruct (conv_spec b Cb) as [c2 (W2 & P2 & K2)].
+  rewrite (prefix_of_cname a c1 K1), (prefix_of_cname b c2 K2) in Hp.
+  unfold version_cmp_strict. rewrite std_compare_scmp, <- P1, <- P2. now apply scmp_cname_unsortable.
+Qed.
